@@ -38,7 +38,7 @@ var quickStores = map[int]bool{0: true, 1: true, 3: true, 6: true, 7: true, 8: t
 func (c tierCfg) alphabet() []op {
 	var out []op
 	for _, o := range allOps() {
-		if !c.Full && ((o.K == kStore && !quickStores[o.X]) || (o.K == kReenter && o.A == aCloseCache) || (o.K == kCloseFiller && o.X != 0 && o.X != 3)) {
+		if !c.Full && ((o.K == kStore && !quickStores[o.X]) || (o.K == kReenter && o.A == aCloseCache) || (o.K == kCloseFiller && o.X != 0 && o.X != 3) || (o.K == kRefMake && (o.X == rmGlobal || o.X == rmClear0))) {
 			continue
 		}
 		out = append(out, o)
@@ -47,9 +47,9 @@ func (c tierCfg) alphabet() []op {
 }
 
 func cfgFor(run *fw.Run) tierCfg {
-	c := tierCfg{Depth: 5, MaxNonNull: 1, Inits: []string{"A", "AB", "AC", "ABC", "MN", "HG"}, NoCache: []bool{false}}
+	c := tierCfg{Depth: 5, MaxNonNull: 1, Inits: []string{"A", "AB", "AC", "ABC", "MN", "HG", "TR"}, NoCache: []bool{false}}
 	if run.Thorough() {
-		c = tierCfg{Depth: 6, MaxNonNull: 2, Inits: []string{"", "A", "C", "AB", "AC", "ABC", "MN", "HG"}, NoCache: []bool{false, true}, Full: true}
+		c = tierCfg{Depth: 6, MaxNonNull: 2, Inits: []string{"", "A", "C", "AB", "AC", "ABC", "MN", "HG", "TR"}, NoCache: []bool{false, true}, Full: true}
 	}
 	if os.Getenv("C09_FULL") == "1" {
 		c.Full = true
@@ -57,6 +57,9 @@ func cfgFor(run *fw.Run) tierCfg {
 	keyFillers = c.Full
 	if v := os.Getenv("C09_DEPTH"); v != "" {
 		c.Depth, _ = strconv.Atoi(v)
+	}
+	if v := os.Getenv("C09_INITS"); v != "" { // development aid: explore only these initial graphs, e.g. C09_INITS=TR
+		c.Inits = strings.Split(v, ",")
 	}
 	if v := os.Getenv("C09_MAXNN"); v != "" {
 		c.MaxNonNull, _ = strconv.Atoi(v)
@@ -66,7 +69,7 @@ func cfgFor(run *fw.Run) tierCfg {
 
 func (s state) nonNull() int {
 	n := 0
-	for _, f := range s.Slots {
+	for _, f := range s.Slots[:nABCSlots] { // the bound concerns the A/B/C graphs; graph TR starts with 3 non-null slots
 		if f != fNull {
 			n++
 		}
@@ -84,7 +87,11 @@ const recSize = 4 + 3*maxOps
 func encodeHistory(h history) []byte {
 	b := make([]byte, recSize)
 	for i := 0; i < len(h.Init.Mods); i++ {
-		b[3] |= 1 << modIndex(h.Init.Mods[i])
+		if x := modIndex(h.Init.Mods[i]); x < 8 {
+			b[3] |= 1 << x
+		} else {
+			b[0] |= 1 << (x - 8)
+		}
 	}
 	if h.Init.NoCache {
 		b[1] |= 1
@@ -102,7 +109,7 @@ func encodeHistory(h history) []byte {
 func decodeHistory(b []byte) history {
 	var h history
 	for x := 0; x < nMods; x++ {
-		if b[3]&(1<<x) != 0 {
+		if (x < 8 && b[3]&(1<<x) != 0) || (x >= 8 && b[0]&(1<<(x-8)) != 0) {
 			h.Init.Mods += modNames[x]
 		}
 	}
@@ -526,6 +533,15 @@ func (e *explorer) explore() {
 						continue
 					}
 				}
+				if !e.cfg.Full && n.s.Inst[mT] != instNone {
+					// quick, many-references graph TR: lifecycle of the referencer R, cache/runtime close, collections, reference making
+					switch {
+					case o.K == kFresh, o.K == kCloseFiller:
+						continue
+					case (o.K == kCloseInst || o.K == kCloseComp || o.K == kDrop) && o.X == mT:
+						continue
+					}
+				}
 				if !e.cfg.Full && n.s.Inst[mM] != instNone {
 					// quick, shared-memory graph MN: lifecycle of the owner M, cache/runtime close, collections, growth, writes
 					switch {
@@ -658,7 +674,7 @@ func main() {
 			"transitions = executed (history, engine) cases with >= 1 operation, each executes the implementation; in every reached state all probe calls (self-loops) are executed twice (before/after a forced collection)",
 		Samples: e.samples.List(), Exhaustive: true, Outcomes: e.outcomes.Map(),
 		Bounds: map[string]any{"max_operations": e.cfg.Depth, "alphabet": len(e.ops), "alphabet_ops": opNames(e.ops), "max_non_null_slots": e.cfg.MaxNonNull, "initial_graphs": e.cfg.Inits,
-			"runtime_without_cache": e.cfg.NoCache, "engines": engineNames, "modules": 3, "slots": slotNames, "function_values": fnNames,
+			"runtime_without_cache": e.cfg.NoCache, "engines": engineNames, "modules": "A,B,C + M,N + H,G + T,R (+ failing D, fillers)", "slots": slotNames, "function_values": fnNames,
 			"element_segment_applied_before_failure(calibrated)": map[string]bool{failKindNames[0]: failWrites[0], failKindNames[1]: failWrites[1], failKindNames[2]: failWrites[2]}},
 		Extra: extra,
 	}, []string{
